@@ -543,3 +543,133 @@ Definition values_facts_b (g : geom) (values : list Z) (mn : Z) : bool :=
 Example values_facts_example :
   values_facts_b (prep_geom (prepare ex_seed ex_mask ex_fp)) (prep_values ex_seed ex_mask ex_fp) (img_min ex_seed) = true.
 Proof. vm_compute. reflexivity. Qed.
+
+(* ------------------------------------------------------------------ layer 7: the value-level facts
+   of the padded list, for every accepted input *)
+Lemma fold_min_le l : forall x, fold_left Z.min l x <= x /\ forall y, In y l -> fold_left Z.min l x <= y.
+Proof.
+  induction l as [|a l IH]; intros x; cbn [fold_left In]; [split; [lia|tauto]|].
+  destruct (IH (Z.min x a)) as [A B]. split; [lia|]. intros y [<-|Hy]; [lia|apply B; exact Hy].
+Qed.
+
+Lemma img_min_le (g : list (list Z)) y : In y (concat g) -> img_min g <= y.
+Proof.
+  unfold img_min. destruct (concat g) as [|x l]; [intros []|]. destruct (fold_min_le l x) as [A B].
+  intros [<-|Hy]; [exact A|apply B; exact Hy].
+Qed.
+
+Lemma rect_row {A} (g : list (list A)) w r : rect g w = true -> 0 <= r < zlen g ->
+  zlen (nth (Z.to_nat r) g []) = w.
+Proof.
+  unfold rect. rewrite forallb_forall. intros HR Hr. unfold zlen in Hr.
+  specialize (HR (nth (Z.to_nat r) g []) ltac:(apply nth_In; lia)). lia.
+Qed.
+
+Lemma img_get_in (g : list (list Z)) w r c : rect g w = true -> 0 <= r < zlen g -> 0 <= c < w ->
+  In (img_get g r c) (concat g).
+Proof.
+  intros HR Hr Hc. assert (L := rect_row g w r HR Hr). unfold zlen in L, Hr.
+  unfold img_get. destruct ((r <? 0) || (c <? 0)) eqn:E; [lia|].
+  apply in_concat. exists (nth (Z.to_nat r) g []). split; apply nth_In; lia.
+Qed.
+
+Lemma all_le_get a b w r c : all_le a b = true -> zlen b = zlen a -> rect a w = true -> rect b w = true ->
+  0 <= r < zlen a -> 0 <= c < w -> img_get a r c <= img_get b r c.
+Proof.
+  intros HA HL Ra Rb Hr Hc. unfold all_le in HA. rewrite forallb_forall in HA.
+  assert (La := rect_row a w r Ra Hr). assert (Lb := rect_row b w r Rb ltac:(lia)).
+  unfold zlen in *.
+  specialize (HA (nth (Z.to_nat r) a [], nth (Z.to_nat r) b [])).
+  assert (Hin : In (nth (Z.to_nat r) a [], nth (Z.to_nat r) b []) (combine a b)).
+  { rewrite <- combine_nth by lia. apply nth_In. rewrite combine_length. lia. }
+  specialize (HA Hin). cbn [fst snd] in HA. rewrite forallb_forall in HA.
+  set (ra := nth (Z.to_nat r) a []) in *. set (rb := nth (Z.to_nat r) b []) in *.
+  specialize (HA (nth (Z.to_nat c) ra 0, nth (Z.to_nat c) rb 0)).
+  assert (Hin2 : In (nth (Z.to_nat c) ra 0, nth (Z.to_nat c) rb 0) (combine ra rb)).
+  { rewrite <- combine_nth by lia. apply nth_In. rewrite combine_length. lia. }
+  specialize (HA Hin2). cbn [fst snd] in HA.
+  unfold img_get. destruct ((r <? 0) || (c <? 0)) eqn:E; [lia|]. fold ra rb. lia.
+Qed.
+
+Lemma interior_b_range g i : interior_b g i = true ->
+  0 <= i / gPW g - gp0 g < gH g /\ 0 <= i mod gPW g - gp1 g < gW g.
+Proof. unfold interior_b. intros Hb. lia. Qed.
+
+Theorem padded_values_facts image mask fp :
+  accepted_common image mask fp = true -> 1 <= zlen fp / 2 -> 1 <= width fp / 2 ->
+  let g := mkgeom (zlen image) (width image) (zlen fp / 2) (width fp / 2) in
+  let values := prep_values image mask fp in
+  let val := fun i => nth (Z.to_nat i) values 0 in
+  geom_ok g /\
+  (forall i, 0 <= i < gS g -> interior_b g i = false ->
+     val i = img_min image /\ val (i + gS g) = img_min image) /\
+  (forall j, 0 <= j < 2 * gS g -> img_min image <= val j) /\
+  (forall i, 0 <= i < gS g -> val i <= val (i + gS g)).
+Proof.
+  intros Hacc P0 P1 g values val. unfold accepted_common in Hacc. cbv zeta in Hacc.
+  apply andb_prop in Hacc; destruct Hacc as [Hacc Rf].
+  apply andb_prop in Hacc; destruct Hacc as [Hacc Hle].
+  apply andb_prop in Hacc; destruct Hacc as [Hacc Rm].
+  apply andb_prop in Hacc; destruct Hacc as [Hacc Lm].
+  apply andb_prop in Hacc; destruct Hacc as [Hacc Ri].
+  apply andb_prop in Hacc; destruct Hacc as [HH HW].
+  set (H := zlen image) in *. set (W := width image) in *.
+  set (p0 := zlen fp / 2) in *. set (p1 := width fp / 2) in *. set (mn := img_min image).
+  assert (G : geom_ok g) by (unfold geom_ok, g; cbn [gH gW gp0 gp1]; lia).
+  set (A := padded_plane H W p0 p1 mn image). set (B := padded_plane H W p0 p1 mn mask).
+  assert (LA : zlen A = gS g) by (unfold A; rewrite padded_plane_length by lia; reflexivity).
+  assert (LB : zlen B = gS g) by (unfold B; rewrite padded_plane_length by lia; reflexivity).
+  assert (V1 : forall i, 0 <= i < gS g -> val i = nth (Z.to_nat i) A 0).
+  { intros i Hi. unfold val, values, prep_values. fold H W p0 p1 mn A B. apply app_nth1. unfold zlen in LA. lia. }
+  assert (V2 : forall i, 0 <= i < gS g -> val (i + gS g) = nth (Z.to_nat i) B 0).
+  { intros i Hi. unfold val, values, prep_values. fold H W p0 p1 mn A B. rewrite app_nth2 by (unfold zlen in LA; lia).
+    f_equal. unfold zlen in LA. lia. }
+  assert (NA : forall i, 0 <= i < gS g -> nth (Z.to_nat i) A 0 =
+            if interior_b g i then img_get image (i / gPW g - p0) (i mod gPW g - p1) else mn)
+    by (intros i Hi; apply nth_padded_plane; try lia; exact Hi).
+  assert (NB : forall i, 0 <= i < gS g -> nth (Z.to_nat i) B 0 =
+            if interior_b g i then img_get mask (i / gPW g - p0) (i mod gPW g - p1) else mn)
+    by (intros i Hi; apply nth_padded_plane; try lia; exact Hi).
+  assert (Int : forall i, interior_b g i = true ->
+            0 <= i / gPW g - p0 < H /\ 0 <= i mod gPW g - p1 < W)
+    by (intros i Hb; exact (interior_b_range g i Hb)).
+  assert (Cell : forall i, 0 <= i < gS g -> interior_b g i = true ->
+            mn <= nth (Z.to_nat i) A 0 /\ nth (Z.to_nat i) A 0 <= nth (Z.to_nat i) B 0).
+  { intros i Hi Hb. rewrite (NA i Hi), (NB i Hi), Hb. destruct (Int i Hb) as [Hr Hc]. split.
+    - apply img_min_le. apply (img_get_in image W); [exact Ri|exact Hr|exact Hc].
+    - apply (all_le_get image mask W); try assumption; lia. }
+  split; [exact G|]. split; [|split].
+  - intros i Hi Hb. rewrite (V1 i Hi), (V2 i Hi), (NA i Hi), (NB i Hi), Hb. split; reflexivity.
+  - intros j Hj. destruct (Z_lt_ge_dec j (gS g)) as [Lt|Ge].
+    + rewrite (V1 j ltac:(lia)). destruct (interior_b g j) eqn:Hb.
+      * apply Cell; [lia|exact Hb].
+      * rewrite (NA j ltac:(lia)), Hb. lia.
+    + replace j with (j - gS g + gS g) by lia. rewrite (V2 (j - gS g) ltac:(lia)).
+      destruct (interior_b g (j - gS g)) eqn:Hb.
+      * destruct (Cell (j - gS g) ltac:(lia) Hb). lia.
+      * rewrite (NB (j - gS g) ltac:(lia)), Hb. lia.
+  - intros i Hi. rewrite (V1 i Hi), (V2 i Hi). destruct (interior_b g i) eqn:Hb.
+    + apply Cell; assumption.
+    + rewrite (NA i Hi), (NB i Hi), Hb. lia.
+Qed.
+
+(* ------------------------------------------------------------------ layer 8: unconditional safety *)
+Theorem model_safe_full image mask fp :
+  accepted image mask fp = true -> 3 <= zlen fp -> 3 <= width fp ->
+  match grey_reconstruction image mask fp with
+  | Ok (out, d) => d = 0 /\ zlen out = zlen image
+  | OutOfFuel => True
+  | Oob => False
+  | Rejected => False
+  end.
+Proof.
+  intros Hacc F0 F1. unfold grey_reconstruction. rewrite Hacc. cbn [negb].
+  unfold accepted in Hacc.
+  apply andb_prop in Hacc; destruct Hacc as [Hacc O1].
+  apply andb_prop in Hacc; destruct Hacc as [Hc O0].
+  assert (P0 : 1 <= zlen fp / 2) by (apply Z.div_le_lower_bound; lia).
+  assert (P1 : 1 <= width fp / 2) by (apply Z.div_le_lower_bound; lia).
+  destruct (padded_values_facts image mask fp Hc P0 P1) as (G & Hpad & Hmn & Hle).
+  exact (prepare_safe_from_values image mask fp (fp_offsets fp) G
+           (prepare_strides_ok image mask fp O0 O1) Hpad Hmn Hle).
+Qed.
